@@ -294,9 +294,11 @@ def rule_bec(repo: Repo, rep: Report) -> int:
     fi = repo.func(DG, "BinaryErasureChannel.forward")
     n = bernoulli_sites(rep, fi, "self.erasure_prob")
     rep.floor("BEC Bernoulli sites", n, 1)
-    ys = [s for s in fi.body if isinstance(s, ast.Assign) and unparse(s.targets[0]) == "y"]
+    rets0 = returns_of(fi.node)
+    out = unparse(rets0[0].value) if len(rets0) == 1 and isinstance(rets0[0].value, ast.Name) else "y"  # the name does not matter
+    ys = [s for s in fi.body if isinstance(s, ast.Assign) and unparse(s.targets[0]) == out]
     for s in ys:
-        st, d, _ = classify(s.value, ["x.clone().float()", "x.float().clone()", "x.clone()", "x.detach().clone().float()"])
+        st, d, _ = classify(Inliner(fi).inline(s.value), ["x.clone().float()", "x.float().clone()", "x.clone()", "x.detach().clone().float()"])
         rep.add("TRANSITION", fi, f"BEC output starts as: {unparse(s)}", st, d or "a copy of the input: unerased symbols unchanged", node=s)
         n += 1
     stores = [s for s in stmts_of(fi.body) if isinstance(s, (ast.Assign, ast.AugAssign)) and isinstance((s.targets[0] if isinstance(s, ast.Assign) else s.target), ast.Subscript)]
@@ -305,12 +307,13 @@ def rule_bec(repo: Repo, rep: Report) -> int:
         inl = Inliner(fi)
         idx = inl.inline(tgt.slice)
         ok_idx = isinstance(idx, ast.Compare) and any(call_name(x) in RAND for x in ast.walk(idx) if isinstance(x, ast.Call))
-        ok_val = isinstance(s, ast.Assign) and attr_chain(s.value) == "self.erasure_symbol" and unparse(tgt.value) == "y"
-        rep.check(ok_idx and ok_val, "TRANSITION", fi, f"BEC store: {unparse(s)}", "only erased positions change, and only to the erasure symbol", "a store other than `y[erase_mask] = self.erasure_symbol`", node=s)
+        ok_val = isinstance(s, ast.Assign) and attr_chain(s.value) == "self.erasure_symbol" and unparse(tgt.value) == out
+        wrong_store = isinstance(s, ast.AugAssign) or (isinstance(s, ast.Assign) and unparse(tgt.value) == out and attr_chain(s.value) != "self.erasure_symbol") or (ok_val and isinstance(idx, ast.UnaryOp))
+        rep.shape(ok_idx and ok_val, wrong_store, "TRANSITION", fi, f"BEC store: {unparse(s)}", "only erased positions change, and only to the erasure symbol", "a store other than `out[erase_mask] = self.erasure_symbol`", node=s)
         n += 1
     rep.floor("BEC stores", len(stores), 1)
     rets = returns_of(fi.node)
-    rep.shape(len(rets) == 1 and unparse(rets[0].value) == "y", len(rets) == 1 and unparse(rets[0].value) == "x", "TRANSITION", fi, f"BEC returns {unparse(rets[0].value) if rets else '?'}", "the masked copy", "BEC does not return the masked copy")
+    rep.shape(len(rets) == 1 and unparse(rets[0].value) == out and bool(ys), len(rets) == 1 and unparse(rets[0].value) == "x", "TRANSITION", fi, f"BEC returns {unparse(rets[0].value) if rets else '?'}", "the masked copy", "BEC does not return the masked copy")
     n += 1 + rule_params(repo, rep, "BinaryErasureChannel", "erasure_prob")
     return n
 
